@@ -28,7 +28,8 @@ import (
 func init() { commands["inject"] = cmdInject }
 
 type ijCase struct {
-	Am   string   `json:"am"`
+	Am    string   `json:"am"`
+	Rules bool     `json:"rules"`
 	Jobs []string `json:"jobs"`
 	Rw   []string `json:"rw"`
 	Rr   []string `json:"rr"`
@@ -66,15 +67,21 @@ func authYAML(indent, kind, tag string) string {
 func ijYAML(c *ijCase) string {
 	var b strings.Builder
 	b.WriteString("global:\n  scrape_interval: 15s\n  scrape_timeout: 10s\n  evaluation_interval: 30s\n  external_labels:\n    cluster: c1\n")
-	b.WriteString("rule_files:\n- /etc/prometheus/rules/*.yml\n")
-	b.WriteString("alerting:\n  alert_relabel_configs:\n  - source_labels: [severity]\n    regex: info\n    action: drop\n  alertmanagers:\n  - scheme: https\n    path_prefix: /am\n    timeout: 7s\n")
-	b.WriteString(authYAML("    ", c.Am, "am"))
-	b.WriteString("    static_configs:\n    - targets: [\"am1:9093\"]\n")
+	if c.Rules {
+		b.WriteString("rule_files:\n- /etc/prometheus/rules/*.yml\n")
+	}
+	if c.Am == "empty" {
+		b.WriteString("alerting:\n  alertmanagers: []\n")
+	} else {
+		b.WriteString("alerting:\n  alert_relabel_configs:\n  - source_labels: [severity]\n    regex: info\n    action: drop\n  alertmanagers:\n  - scheme: https\n    path_prefix: /am\n    timeout: 7s\n")
+		b.WriteString(authYAML("    ", c.Am, "am"))
+		b.WriteString("    static_configs:\n    - targets: [\"am1:9093\"]\n")
+	}
 	b.WriteString("scrape_configs:\n")
 	for i, a := range c.Jobs {
 		tag := fmt.Sprintf("job%d", i+1)
-		fmt.Fprintf(&b, "- job_name: %s\n  honor_labels: %v\n  honor_timestamps: %v\n  scrape_interval: %ds\n  scrape_timeout: %ds\n  metrics_path: /m%d\n  scheme: https\n  sample_limit: %d\n  target_limit: %d\n  label_limit: %d\n  label_name_length_limit: 50\n  label_value_length_limit: 90\n  body_size_limit: 10MB\n",
-			tag, i%2 == 0, i%2 == 1, 20+i, 8+i, i, 1000+i, 50+i, 30+i)
+		fmt.Fprintf(&b, "- job_name: %s\n  honor_labels: %v\n  honor_timestamps: %v\n  scrape_interval: %ds\n  scrape_timeout: %ds\n  metrics_path: /m%d\n  scheme: %s\n  sample_limit: %d\n  target_limit: %d\n  label_limit: %d\n  label_name_length_limit: 50\n  label_value_length_limit: 90\n  body_size_limit: 10MB\n",
+			tag, i%2 == 0, i%2 == 1, 20+i, 8+i, i, []string{"https", "http"}[(i+len(c.Rw))%2], 1000+i, 50+i, 30+i)
 		fmt.Fprintf(&b, "  params:\n    module: [a%d, b]\n", i)
 		b.WriteString(authYAML("  ", a, tag))
 		b.WriteString("  tls_config:\n    insecure_skip_verify: true\n    server_name: node.example\n")
